@@ -179,12 +179,15 @@ def serve_broadcast(fe, prop, nunits):
         handles = [E.int('ctx%d' % k, 1, None) for k in range(nunits)]
         E.assume(L.And(*[handles[a] != handles[b] for a in range(nunits) for b in range(a + 1, nunits)]) if nunits > 1 else True)
         ctx = E.obj(CTX, single=False, _slaves=dict(zip(ids, handles)))
-        req, info = make_request(E, W, ['normal', 'exception'])      # no datastore raises during a broadcast (C05's quantifier)
+        req, info = make_request(E, W, ['normal', 'exception', 'raises'])
         E.assume(info['uid'] == 0)
         h, meth, args, addr = make_handler(E, W, fe, ctx, True, E.bool('ignore_missing_slaves'))
         out = E.attempt(lambda: E.method(h, meth, req, *args))
         E.prove('%s:no-exception-escapes-execute' % prop, out.ok)
+        # silent whatever the datastores do - also when one of them fails while the broadcast is being applied
         E.prove('%s:broadcast-produces-no-response' % prop, len(W.sent) == 0)
-        E.prove('%s:broadcast-applied-exactly-once-to-every-hosted-unit' % prop, L.And(len(W.executed) == nunits,
-                *[L.Or(*[W.executed[j] == handles[k] for j in range(len(W.executed))]) for k in range(nunits)]) if len(W.executed) == nunits else False)
+        if info['state'].get('outcome') != 'raises':
+            # (a datastore failure aborts the loop over the units: the units after it are not written - C05's quantifier, reported as an observation)
+            E.prove('%s:broadcast-applied-exactly-once-to-every-hosted-unit' % prop, L.And(len(W.executed) == nunits,
+                    *[L.Or(*[W.executed[j] == handles[k] for j in range(len(W.executed))]) for k in range(nunits)]) if len(W.executed) == nunits else False)
     return lemma
